@@ -478,6 +478,24 @@ def signed_delta_rule(ctx, P, rule):
                 for nd in walk(e):
                     if nd.get('op') == 'bin' and nd['o'] == '*' and (nd.get('t') or '') in ('i64', 'u64') and is_delta(nd['k'][0]) and is_delta(nd['k'][1]):
                         prods.append(nd)
+        # a 64-bit id or time (2^55 ticks today) does not fit a double: the difference is taken first, in integers
+        early = []
+        for b in fn.blocks.values():
+            for e in [ev.e for ev in b.events if getattr(ev, 'e', None) is not None] + ([b.cond] if b.cond is not None else []):
+                for nd in walk(e):
+                    if nd.get('op') == 'bin' and nd['o'] == '-' and (nd.get('t') or '') in ('f64', 'f32'):
+                        for k_ in nd['k']:
+                            k0 = k_
+                            while k0.get('op') == 'paren':
+                                k0 = k0['k'][0]
+                            if k0.get('op') == 'cast' and (k0.get('t') or '') in ('f64', 'f32'):
+                                inner = strip_casts(k0['k'][0])
+                                if (inner.get('t') or '') in ('i64', 'u64') and inner.get('op') in ('ref', 'sub', 'member') and \
+                                        any(m.get('op') == 'ref' and (m.get('name') in q or m.get('rk') == 'param') for m in walk(inner)):
+                                    early.append((nd, inner))
+        ctx.ob(rule, not early, fn.name, 'differences are taken before the conversion to floating point', fn.where(),
+               'every floating-point difference has operands that are differences or scaled values already' if not early else
+               '%s converts %s to floating point before subtracting: times are about 2^55 ticks, a double keeps 53 bits, so the difference is off by several ticks (the one-tick bound and the exact reproduction of stored pairs are lost)' % (show(early[0][0])[:70], show(early[0][1])))
         ctx.ob(rule, not prods, fn.name, 'no 64-bit integer product of two differences', fn.where(),
                'differences are multiplied in floating point only' if not prods else
                '%s is computed in 64-bit integer arithmetic: a span of an hour is 2^42 ticks, so with more than 2^21 samples between two pairs the product overflows and the interpolated value is garbage' % show(prods[0]))
